@@ -1,7 +1,7 @@
 import Got.Drv.Common
 import Got.Model.Search
 /-
-driver search: script lines
+drv_search: script lines
   mono <n> <b> <e>      less k = k < b ; equal k = b ≤ k < b+e           (sorted inputs)
   bits <n> <lessmask> <eqmask>   less k = bit k of lessmask etc.          (arbitrary predicates, n ≤ 62)
 output: `r <result> probes <l|e><idx> ...`  or `diverge`
